@@ -30,7 +30,7 @@ EXPLANATION = (
     'parent\'s exactly when the caller exists in the parent (for the public table: whenever a '
     'parent exists). Decides the structural part, not byte-level JSON.'
     " R5/R6 (imported from C04-R2 and C08-R2): the primitive encoders (`_strftime` = strftime with the declared format) and the validators' normalisation (Nullable.validate maps only None to None) decide what text reaches the wire."
-    ' RC (call-condition drift, stonelint.conddrift.run_calls): for every call of a repository or imported-library function in the functions the property is anchored in, the path conditions of its occurrences are compared with reference/conditions.json by truth table; an assignment under which the function used to make the call and now completes without it is a violation (tests on memo tables, emptiness of the iterated collection and earlier refusals excepted; re-spelled conditions are not claimed).'
+    ' RC (call-condition drift, stonelint.effects.run_calls): for every call of a repository or imported-library function in the functions the property is anchored in, the path conditions of its occurrences are compared with reference/effects.json by truth table; an assignment under which the function used to make the call and now completes without it is a violation (tests on memo tables, emptiness of the iterated collection and earlier refusals excepted; re-spelled conditions are not claimed).'
     ' MK (memo-key rule, stonelint.memo): a memo table or done-set the reference tree does not have must be keyed by every access path the skipped code reads, injectively and type-aware.')
 ASSUMPTIONS = [
     'reference/wire_format.json is a faithful transcription of docs/json_serializer.rst',
@@ -160,7 +160,7 @@ def run(pm, ctx):
               key='C05-R3|%s|omit' % es.qualname)
     vk = [n for n in own_nodes(es.node) if isinstance(n, ast.Assign) and
           unparse(n.targets[0]) == 'value_key']
-    ctx.check('C05-R3', len(vk) == 1 and unparse(vk[0].value) == "'_%s_value' % field_name",
+    ctx.check('C05-R3', len(vk) == 1 and unparse(vk[0].value) == "'_{}_value'.format(field_name)",
               'raw slot name is _<field>_value (as Attribute stores it)', es.loc,
               msg='encode_struct reads a different slot than Attribute writes',
               key='C05-R3|%s|slot' % es.qualname)
@@ -268,12 +268,12 @@ def run(pm, ctx):
                      'validators return the value unchanged (Nullable delegates every non-null '
                      'value) so that what is encoded is what was set (shared with C08-R2)')
 
-    from ..conddrift import run_decisions
+    from ..effects import run_decisions
     from ..ownership import OWN
     run_decisions(pm, ctx, 'C05-RD', OWN['C05'])
     from .. import exprdrift
     exprdrift.run(pm, ctx, 'C05-RE', OWN['C05'])
-    from ..conddrift import run_calls
+    from ..effects import run_calls
     run_calls(pm, ctx, 'C05-RC', OWN['C05'])
     from .. import memo
     memo.run(pm, ctx, 'C05-MK', OWN['C05'])
